@@ -167,7 +167,11 @@ def main():
     out, sd, n = sys.argv[1], int(sys.argv[2]), int(sys.argv[3])
     rng = random.Random(sd)
     cases = []
+    only_fam = len(sys.argv) > 4 and sys.argv[4] == "fam"
     for i in range(n):
+        if only_fam:
+            cases.append(fam_case(rng))
+            continue
         cases.append(fam_case(rng) if i % 4 == 3 else elbo_case(rng) if i % 3 != 2 else vi_case(rng))
     json.dump(cases, open(out, "w"))
 
